@@ -70,7 +70,7 @@ PROPS = {
         trusted_base=[T_TRANSPORT, "rfc_decode (spec.Dec) written from RFC 6455 5.2"],
         assumptions=["A-PACK (struct.unpack big-endian), A-INTXOR"], not_decided=[]),
     "C03": dict(
-        functions=RECV_FUNCS + [SK + "recv_line"], lemmas=[],
+        functions=RECV_FUNCS + [SK + "recv_line", HK + "read_headers"], lemmas=[],
         trusted_base=[T_TRANSPORT],
         assumptions=["segmentation and timeout positions are the unconstrained choices of the assumed transport contract; every "
                      "post-condition is a function of (rx, fstart, object state) only"],
@@ -128,7 +128,8 @@ PROPS = {
         not_decided=["that an attempt eventually succeeds; the real length of the pause (time.sleep is assumed to sleep)"]),
     "C16": dict(
         functions=[PA + "WebSocketApp.run_forever", PA + RFN + "check", PA + "WebSocketApp._send_ping", PA + "WebSocketApp._start_ping_thread",
-                   PA + "WebSocketApp._stop_ping_thread", D_ + "Dispatcher.read", D_ + "SSLDispatcher.read", PA + RFN + "read", K + "WebSocket.ping"],
+                   PA + "WebSocketApp._stop_ping_thread", D_ + "Dispatcher.read", D_ + "SSLDispatcher.read", PA + RFN + "read", K + "WebSocket.ping",
+                   PA + RFN + "handleDisconnect", PA + RFN + "teardown"],
         lemmas=["lemma:timing"], bounded=[appsim.bounded("C16")],
         trusted_base=[T_THREAD, T_SEL, "time.time() is a non-decreasing clock",
                       "scheduling assumptions of the timing lemmas: S1 select(T) returns within T, S2 processing a readable frame takes no time, "
